@@ -42,9 +42,9 @@ package openapi3
 //@ func (*Schema).visitJSONNumber
 //@   requires schema != nil && settings != nil
 //@   requires !isNaN(value) && !isInf(value)
-//@   assuming schema.Format == ""
+//@   assuming @C01 @C12 schema.Format == ""
 //@   modifies nothing
-//@   ensures [verdict] (result == nil) <==> validNumber(schema, value)
+//@   ensures @C01 @C12 [verdict] (result == nil) <==> validNumber(schema, value)
 //@   ensures [nonempty-multi] typeof(result) == type MultiError ==> len(result.(MultiError)) > 0
 //@   tag C01 C10 C12
 
@@ -92,10 +92,10 @@ package openapi3
 
 //@ func (*Schema).visitJSONString
 //@   requires schema != nil && settings != nil
-//@   assuming schema.Format == "" && !settings.patternValidationDisabled && settings.regexCompiler == nil
+//@   assuming @C01 @C12 schema.Format == "" && !settings.patternValidationDisabled && settings.regexCompiler == nil
 //@   modifies nothing
 //@   loop 0 invariant length == runesPrefix(value, #pos) && 0 <= length && length <= #pos
-//@   ensures [verdict] (result == nil) <==> validString(schema, value)
+//@   ensures @C01 @C12 [verdict] (result == nil) <==> validString(schema, value)
 //@   ensures [nonempty-multi] typeof(result) == type MultiError ==> len(result.(MultiError)) > 0
 //@   tag C01 C10 C12
 
@@ -321,3 +321,20 @@ package openapi3
 //@   ensures [empty-accepts] old(isEmptySchema(schema)) && value != nil && !(typeof(value) == type float64 && (isNaN(value.(float64)) || isInf(value.(float64)))) ==> result == nil
 //@   ensures [nonempty-multi] typeof(result) == type MultiError ==> len(result.(MultiError)) > 0
 //@   tag C01 C10 C12
+
+// format validators are user-extensible (assumed A3: no effect on the modelled heap)
+//@ iface (FormatValidator).Validate (self, value)
+//@   modifies nothing
+
+// Format registries: a registered validator is non-nil (A6: callers of the registration
+// functions pass non-nil validators; the registration functions are the only module writers).
+//@ global mapvalues-nonnil SchemaStringFormats SchemaNumberFormats SchemaIntegerFormats
+//@ func DefineStringFormatValidator
+//@   requires validator != nil
+//@   modifies *
+//@ func DefineNumberFormatValidator
+//@   requires validator != nil
+//@   modifies *
+//@ func DefineIntegerFormatValidator
+//@   requires validator != nil
+//@   modifies *
